@@ -51,6 +51,8 @@ inductive Evt where
   | initErrMapped (f e : Nat)                -- `map_init_err` closure applied
   | newTransform (t : Nat)                   -- `Transform::new_transform` invoked
   | cfgFn (f cfg : Nat)                      -- `apply_cfg` / `apply_cfg_factory` closure invoked
+  | reent (k req : Nat)                      -- re-entrant shim service entered by `call(req)`
+  | freent (k cfg : Nat)                     -- re-entrant shim factory entered by `new_service(cfg)`
 deriving Repr, DecidableEq
 
 /-- transparent wrappers: `boxed::service`, `boxed::rc_service`, `Rc<S>`, `RefCell<S>`, `&S`, `Box<S>`,
@@ -75,6 +77,11 @@ inductive Svc where
   | applyFn (s : Svc) (kind : AKind) (k : Nat)
   | wrap (w : Wrap) (s : Svc)
   | mw (s : Svc) (t : Nat)                 -- user middleware (built by a `Transform` / `apply_cfg`)
+  /-- wrapper `w` around a user shim that re-enters *the wrapped service itself* (through a clone of
+  the handle) while its own `call` / `poll_ready` is on the stack: `call(req)` with odd `req` calls
+  the wrapper again with `req - 1`, which (even) goes on to `s`; `poll_ready` polls the wrapper
+  once more, which then polls `s`.  Transparent wrappers make this the same as `s` on `req - req % 2` -/
+  | reenter (w : Wrap) (k : Nat) (s : Svc)
 deriving Repr, DecidableEq, Inhabited
 
 inductive Fut where
@@ -89,6 +96,13 @@ deriving Repr, DecidableEq
 def leafRes (id : Nat) (cok : Bool) (req : Nat) : Res :=
   if cok then .ok (leafVal id req) else .err (leafErr id req)
 
+/-- the request / config that reaches the inner service of a re-entrant shim: an odd value re-enters
+the wrapper once with the value below it -/
+def reReq (req : Nat) : Nat := if req % 2 = 1 then req - 1 else req
+/-- the shim entries of one `call(req)` through a re-entrant wrapper -/
+def reEvts (k req : Nat) : List Evt := if req % 2 = 1 then [.reent k req, .reent k (req - 1)] else [.reent k req]
+def freEvts (k cfg : Nat) : List Evt := if cfg % 2 = 1 then [.freent k cfg, .freent k (cfg - 1)] else [.freent k cfg]
+
 /-- `Service::call`: the future and the events emitted synchronously by the call -/
 def call : Svc → Nat → Fut × List Evt
   | .leaf id cp cok _ _, req => (.leafF id cp (leafRes id cok req) false, [.called id req])
@@ -101,6 +115,7 @@ def call : Svc → Nat → Fut × List Evt
   | .applyFn s .post k, req => (.postF (call s req).1 k, .wrapFn k req :: (call s req).2)
   | .wrap _ s, req => call s req
   | .mw s t, req => (.postF (call s req).1 t, .mw t req :: (call s req).2)
+  | .reenter _ k s, req => ((call s (reReq req)).1, reEvts k req ++ (call s (reReq req)).2)
 
 def svcSize : Svc → Nat
   | .leaf .. => 1
@@ -111,6 +126,7 @@ def svcSize : Svc → Nat
   | .applyFn s _ _ => svcSize s + 1
   | .wrap _ s => svcSize s + 1
   | .mw s _ => svcSize s + 1
+  | .reenter _ _ s => svcSize s + 1
 
 def futSize : Fut → Nat
   | .leafF .. => 0
@@ -134,6 +150,7 @@ theorem futSize_call (s : Svc) (req : Nat) : futSize (call s req).1 < svcSize s 
     · have := ih req; simp [call, futSize, svcSize]; omega
   | wrap w s ih => have := ih req; simp [call, svcSize]; omega
   | mw s t ih => have := ih req; simp [call, futSize, svcSize]; omega
+  | reenter w k s ih => have := ih (reReq req); simp [call, svcSize]; omega
 
 /-- `Future::poll` of the response futures with waker identity `w`: new state, `none` = Pending,
 and the events.  `andThenA` is and_then.rs:108-118: when the first future completes with `Ok` the
@@ -208,6 +225,7 @@ def pollReady : Svc → Nat → Svc × Rdy × List Evt
   | .applyFn s kind k, w => match pollReady s w with | (s', r, l) => (.applyFn s' kind k, r, l)
   | .wrap wr s, w => match pollReady s w with | (s', r, l) => (.wrap wr s', r, l)
   | .mw s t, w => match pollReady s w with | (s', r, l) => (.mw s' t, r, l)
+  | .reenter wr k s, w => match pollReady s w with | (s', r, l) => (.reenter wr k s', r, l)
 
 /-! ## Part 2: service factories -/
 
@@ -235,6 +253,9 @@ inductive Fac where
   | unitConfig (a : Fac)
   | boxed (a : Fac)                            -- `boxed::factory`
   | rc (a : Fac)                               -- `Rc<factory>` / `Arc<factory>`
+  /-- `Rc`/`Arc` around a user shim factory that re-enters the same `Rc`/`Arc` while its own
+  `new_service` is on the stack: odd `cfg` asks the wrapper again with `cfg - 1`, even goes on to `a` -/
+  | reenter (k : Nat) (a : Fac)
 deriving Repr, DecidableEq, Inhabited
 
 inductive IFut where
@@ -281,6 +302,7 @@ def newService : Fac → Nat → IFut × List Evt
   | .unitConfig a, _ => newService a 0
   | .boxed a, cfg => (.boxedI (newService a cfg).1, (newService a cfg).2)
   | .rc a, cfg => newService a cfg
+  | .reenter k a, cfg => ((newService a (reReq cfg)).1, freEvts k cfg ++ (newService a (reReq cfg)).2)
 
 def iresOut : IRes → Option Nat
   | .ok _ => none
